@@ -32,3 +32,8 @@ Proof. exact ProofsC.t_alt_short_marshal. Qed.
 (* and the alternatives are real: some oracle gives bytes Marshal does not write *)
 Theorem t_alt_differs : t_alt_differs_statement.
 Proof. exact ProofsC.t_alt_differs. Qed.
+
+From Verif Require Import Thrift.SpecD.
+From Verif Require Thrift.ProofsD.
+(* a list / set of bools whose header carries the item type TRUE instead of BOOL decodes alike *)
+Theorem t_bool_list_true : t_bool_list_true_statement. Proof. exact ProofsD.t_bool_list_true. Qed.
